@@ -32,6 +32,7 @@ import (
 	"runtime/debug"
 	"sort"
 	"strings"
+	"syscall"
 	"testing"
 	"time"
 
@@ -706,6 +707,7 @@ type c14case struct {
 	Unit     string `json:"type"`
 	Mutation string `json:"mutation"`
 	Where    string `json:"where,omitempty"`
+	Affix    string `json:"affix,omitempty"` // format dimension: the names of the prefix and suffix around the body
 }
 
 func (c c14case) data() []byte {
@@ -1929,6 +1931,15 @@ func (e *c14env) partFrames(first int) {
 // the test
 // ---------------------------------------------------------------------------------------------------
 
+// c14cpuMs: CPU time of this process (the wall clock says little on a loaded machine).
+func c14cpuMs() int {
+	var ru syscall.Rusage
+	if syscall.Getrusage(syscall.RUSAGE_SELF, &ru) != nil {
+		return 0
+	}
+	return int(ru.Utime.Sec*1000+ru.Utime.Usec/1000) + int(ru.Stime.Sec*1000+ru.Stime.Usec/1000)
+}
+
 func TestVerifC14(t *testing.T) {
 	r := enumx.New(t, "C14")
 	defer r.Finish()
@@ -1936,6 +1947,11 @@ func TestVerifC14(t *testing.T) {
 	e := c14newEnv(t, r)
 
 	if r.ReplayPath != "" {
+		var ic c14intCase
+		if err := r.ReplayCase(&ic); err == nil && ic.Part == "ints" {
+			e.replayInts(ic, c14catalogue(t))
+			return
+		}
 		var c c14case
 		if err := r.ReplayCase(&c); err != nil {
 			t.Fatalf("replay: %v", err)
@@ -1943,6 +1959,9 @@ func TestVerifC14(t *testing.T) {
 		if c.Path == "" {
 			fmt.Println("replay: part (a) violations depend on generated values; re-run the check to reproduce")
 			return
+		}
+		if strings.HasPrefix(c.Mutation, "fmt-") {
+			e.decCase(c, "replay")
 		}
 		res := e.check(c, "replay")
 		fmt.Printf("replay %s %s mutation=%s at %s: stage=%s decoded=%v panic=%+v\n", c.Path, c.Unit, c.Mutation, c.Where, res.Stage, res.Decoded, res.Panic)
@@ -1986,5 +2005,83 @@ func TestVerifC14(t *testing.T) {
 		t0 := time.Now()
 		e.partFrames(first)
 		r.Count("ms_frames", int(time.Since(t0).Milliseconds()))
+	}
+
+	// ---- small-scope values of every integer field (zz_verif_c14ints_test.go) ----------------------------
+	r.Count("cpu_ms_parts_a_b_frames", c14cpuMs())
+	if os.Getenv("VERIF_C14_SKIP_INTS") == "" {
+		t0, c0 := time.Now(), c14cpuMs()
+		for _, u := range units {
+			K := 2
+			if c14isBig(u) {
+				K = 8
+			}
+			for chunk := 0; chunk < K; chunk++ {
+				if !r.Mine() {
+					continue
+				}
+				if r.Expired() {
+					return
+				}
+				if only != "" && !strings.Contains(u.Name, only) {
+					continue
+				}
+				t1 := time.Now()
+				e.partInts(u, chunk, K)
+				if c14isBig(u) {
+					r.Count("ms_ints_proposals", int(time.Since(t1).Milliseconds()))
+				}
+			}
+		}
+		if r.Mine() && only == "" {
+			e.partIntDuty()
+		}
+		if enumx.Thorough() {
+			for _, u := range units {
+				K := 8
+				if u.Name == "AttestationData" {
+					K = 64
+				}
+				for chunk := 0; chunk < K; chunk++ {
+					if !r.Mine() {
+						continue
+					}
+					if r.Expired() {
+						return
+					}
+					if only != "" && !strings.Contains(u.Name, only) {
+						continue
+					}
+					e.partIntPairs(u, chunk, K)
+				}
+			}
+		}
+		r.Count("ms_ints", int(time.Since(t0).Milliseconds()))
+		r.Count("cpu_ms_ints", c14cpuMs()-c0)
+	}
+
+	// ---- decoder input alphabet around format detection (zz_verif_c14dec_test.go) --------------------------
+	if os.Getenv("VERIF_C14_SKIP_DEC") == "" {
+		t0, c0 := time.Now(), c14cpuMs()
+		for _, u := range units {
+			K := 2
+			if c14isBig(u) {
+				K = 16
+			}
+			for chunk := 0; chunk < K; chunk++ {
+				if !r.Mine() {
+					continue
+				}
+				if r.Expired() {
+					return
+				}
+				if only != "" && !strings.Contains(u.Name, only) {
+					continue
+				}
+				e.partDecoder(u, chunk, K)
+			}
+		}
+		r.Count("ms_decoder", int(time.Since(t0).Milliseconds()))
+		r.Count("cpu_ms_decoder", c14cpuMs()-c0)
 	}
 }
